@@ -86,6 +86,8 @@ class Sweep:
             c.append("--samples")
         if self.cold:
             c.append("--cold")
+        if self.lim.get("huge") and not self.cold and not self.prefix:
+            c.append("--huge")
         return c
 
     def failures(self):
@@ -636,7 +638,7 @@ def main():
             harness_error("oracle self-check failed in %s: %s" % (f, r.stdout.strip()[-500:]))
         infos[f]["per_member_tls"] = "per_member_tls=1" in r.stdout
 
-    lim = dict(maxlog=T["maxlog"], maxlog_tree=T["maxlog_tree"], max_copy=T["max_copy"])
+    lim = dict(maxlog=T["maxlog"], maxlog_tree=T["maxlog_tree"], max_copy=T["max_copy"], huge=(tier == "thorough"))
     nruns = int(os.environ.get("VERIF_RUNS", T["runs"][prop]))
     deadline = time.time() + T["cap_s"]
     sweeps = []
@@ -929,7 +931,7 @@ def write_evidence(prop, tier, seed, sweeps, infos, gate_checked, violations, kn
             },
             "blind_spot_audit": {f: {"uninstrumented_external_symbols": infos[f]["uninstrumented_external_symbols"], "asm_with_memory_effects": infos[f]["asm_with_memory_effects"]} for f in infos},
             "tree_hash": infos[sweeps[0].flavour]["tree_hash"],
-            "bounds": {"transform_sizes_up_to": 1 << lim["maxlog"], "tree_rows_up_to": 1 << lim["maxlog_tree"], "copy_sizes_up_to": lim["max_copy"], "team_sizes": "1..128", "columns_up_to": 1000},
+            "bounds": {"occasional_huge_shapes": bool(lim.get("huge")), "transform_sizes_up_to": 1 << lim["maxlog"], "tree_rows_up_to": 1 << lim["maxlog_tree"], "copy_sizes_up_to": lim["max_copy"], "team_sizes": "1..128", "columns_up_to": 1000},
             "runs_with_violation_of_this_property": viol_runs,
             "violations_reported": [dict(replay=v["path"], outcome=v["cls"], report=v["report"], flavour=v["flavour"]) for v in violations],
             "known_findings_matched": [k[0].get("what", "") for k in known_hits],
